@@ -1,5 +1,6 @@
 // kv-mount: src/stack.rs
 // kv-needs: kfs
+// kv-with: readonly_ops
 //
 // Stacked caches (stack::Cache over plain/sharded writers and ReadOnlyCache readers) on KFS:
 // lookup order and hit actions (C13), consistency checker (C14), read-only sides untouched (C15),
@@ -102,19 +103,24 @@ fn stack_case(writer: u8, readers: u8, op: u8, checker: u8, auto_sync: bool, fau
     } else if writer == W_SHARDED {
         b.sharded_writer(kfs::path_of(kfs::D_S, kfs::NONE), 2, 100);
     }
-    if readers >= 1 {
-        b.plain_reader(kfs::path_of(kfs::D_R, kfs::NONE));
-    }
-    if readers >= 2 {
-        b.plain_reader(kfs::path_of(kfs::D_Q, kfs::NONE));
-    }
     b.auto_sync(auto_sync);
     if checker == CK_BYTES {
         b.byte_equality_checker();
     } else if checker == CK_PANIC {
         b.panicking_byte_equality_checker();
     }
-    let cache = b.take().build();
+    let mut cache = b.take().build();
+    if readers >= 1 {
+        // same value the builder would produce, built with a typed move (see harness/readonly_ops.rs)
+        let r = kfs::path_of(kfs::D_R, kfs::NONE);
+        let q = kfs::path_of(kfs::D_Q, kfs::NONE);
+        let ck = cache.consistency_checker.clone();
+        cache.read_side = if readers >= 2 {
+            crate::readonly::kv_readonly_ops::make(&[r.as_path(), q.as_path()], ck)
+        } else {
+            crate::readonly::kv_readonly_ops::make(&[r.as_path()], ck)
+        };
+    }
     if fault {
         kfs::k().fail_at = kani::any();
         kfs::k().fail_errno = kfs::EIO;
@@ -417,6 +423,9 @@ macro_rules! stack_harness {
     };
 }
 
+// experiments
+stack_harness!(stack_get_w1r0_nock, W_PLAIN, 0, OP_GET, CK_NONE, true, false);
+stack_harness!(stack_get_w0r1_nock, W_NONE, 1, OP_GET, CK_NONE, true, false);
 // two levels: plain writer + one plain reader
 stack_harness!(stack_get_w1r1_nock, W_PLAIN, 1, OP_GET, CK_NONE, true, false);
 stack_harness!(stack_get_w1r2_bytes, W_PLAIN, 2, OP_GET, CK_BYTES, true, false);
